@@ -180,6 +180,10 @@ def gen_c06(rnd, mode, tier, tolerant_ok=False):
         sc["copied"] = rnd.choice(["deepcopy", "pickle"])
     if burst:
         sc["burst"] = n_b
+    if mode == "asyncio" and not cancel and not tolerant and rnd.random() < 0.3:
+        # the initial activation is ONE MORE concurrent party: a task awaits activate_initial_state() while
+        # the senders already send; its callbacks are a critical section like any event's
+        sc["lazy_activation"] = True
     if mode == "threads":
         sc["tseed"] = rnd.randrange(1 << 30)
         sc["nswitch"] = rnd.choice([1, 2, 2, 2, 3, 4, 6])
@@ -264,10 +268,16 @@ def _exec_async(sc):
             except Exception as e:
                 SIM.rec(k="send-", s=sd["id"], tok=s["tok"], out=["exc", SIM._describe_exc(e)])
 
-    async def main():
+    async def activator():
         await sm.activate_initial_state()
         SIM.rec(k="activated")
+
+    async def main():
         tasks = []
+        if sc.get("lazy_activation"):
+            tasks.append(loop.create_task(activator()))
+        else:
+            await activator()
         for sd in sc["senders"]:
             t = loop.create_task(sender(sd))
             t._sim_sender = sd["id"]
@@ -437,6 +447,9 @@ def check(sc, res):
             open_s.discard(r["s"])
     marker = next((r["q"] for r in trace if r["k"] == "all_returned"), None)
     act = next((r["q"] for r in trace if r["k"] == "activated"), 0)
+    lazy = bool(sc.get("lazy_activation"))
+    if lazy:
+        act = 0  # the activation's callbacks form a block of their own ("__initial__"), the first one
     # ---- 1. mutual exclusion: callback records of different tokens form disjoint contiguous blocks
     blocks = []  # [tok, [cb+ records], first_q, last_end_q]
     open_cb = {}
@@ -448,6 +461,8 @@ def check(sc, res):
             tok = r["b"].get("tok")
             if tok is None and isinstance(r["b"].get("kw"), dict):
                 tok = dict((k, v) for k, v in r["b"]["kw"].get("$d", [])).get("tok")
+            if lazy and tok is None:
+                tok = "__initial__"
             if blocks and blocks[-1][0] == tok:
                 blocks[-1][1].append(r)
             else:
@@ -473,6 +488,11 @@ def check(sc, res):
     if sc.get("tolerant"):
         return check_tolerant(sc, res, prog, inst, ref, blocks, ev_of, enq, marker, trace), stats
     # ---- 2. exactly once, by replaying the observed order on the transition table
+    if lazy:
+        if any(b[0] == "__initial__" for b in blocks[1:]):
+            return [{"clause": "C06.mutual_exclusion", "kind": "activation_not_first", "op": None,
+                     "detail": {"blocks": [b[0] for b in blocks][:6]}}], stats
+        blocks = [b for b in blocks if b[0] != "__initial__"]
     order = [b[0] for b in blocks]
     state = ref.progs[0].initial
     pre_marker = set()
@@ -758,6 +778,7 @@ class C06(Campaign):
              "fault.nested_sends": st.get("sends", 0), "fault.virtual_delays": st.get("delays", 0),
              "fault.listener_attached_mid_event": st.get("attach", 0),
              "probe.tolerant_non_total_machine(order search)": 1 if sc.get("tolerant") else 0,
+             "fault.activation_concurrent_with_senders": 1 if sc.get("lazy_activation") else 0,
              "fault.burst_while_stalled(events pending at once)": sc.get("burst", 0),
              "fault.machine_is_a_fresh_copy(" + str(sc.get("copied")) + ")": 1 if sc.get("copied") else 0,
              "fault.preemptions": st.get("switches", 0), "probe.line_steps": st.get("line_steps", 0)}
